@@ -323,13 +323,16 @@ def vcard(draw, uid=None, style=None):
         t = draw(st.sampled_from(["HOME", "WORK", "home", None]))
         if t and draw(st.integers(0, 3)) == 0:
             # a parameter with several values: TYPE=HOME,INTERNET or TYPE=HOME;TYPE=pref
-            extra = draw(st.sampled_from(["INTERNET", "pref", "VOICE"]))
+            extra = draw(st.sampled_from(["INTERNET", "pref", "VOICE", "WORK", "home"]))
             params = [("TYPE", [t, extra])] if draw(st.booleans()) else [("TYPE", [t]), ("TYPE", [extra])]
             props.append(("EMAIL", params, draw(st.sampled_from(["john@example.com", "JANE@Example.COM", "zoë@example.org", "bob@work.example"]))))
             continue
         props.append(("EMAIL", [("TYPE", [t])] if t else [], draw(st.sampled_from(["john@example.com", "JANE@Example.COM", "zoë@example.org", "bob@work.example"]))))
     for _ in range(draw(st.integers(0, 2))):
         t = draw(st.sampled_from(["CELL", "VOICE", None]))
+        if t and draw(st.integers(0, 2)) == 0:
+            props.append(("TEL", [("TYPE", [t, draw(st.sampled_from(["HOME", "WORK", "home"]))])], draw(st.sampled_from(["+1 555 0100", "+31 20 555 0199", "0123"]))))
+            continue
         props.append(("TEL", [("TYPE", [t])] if t else [], draw(st.sampled_from(["+1 555 0100", "+31 20 555 0199", "0123"]))))
     if draw(st.booleans()):
         props.append(("NICKNAME", [], draw(st.sampled_from(["Johnny", "jj", "Zoë", "The Boss"]))))
@@ -384,7 +387,11 @@ def invalid_calendar(draw):
 
 @st.composite
 def invalid_vcard(draw):
-    kind = draw(st.sampled_from(["text", "empty", "nobegin", "noend", "truncated"]))
+    kind = draw(st.sampled_from(["text", "empty", "nobegin", "noend", "truncated", "trailing"]))
+    if kind == "trailing":
+        # one complete card followed by something that is not part of it
+        good = b"BEGIN:VCARD\r\nVERSION:3.0\r\nFN:John Doe\r\nN:Doe;John;;;\r\nUID:trailing\r\nEND:VCARD\r\n"
+        return kind, good + draw(st.sampled_from([b"and some more text\r\n", b"\x00\xff junk", b"BEGIN:VCARD\r\nVERSION:3.0\r\nFN:Second", b"FN:Stray Line\r\n"]))
     if kind == "text":
         return kind, draw(st.sampled_from([b"hello", b"FN:John\r\n", b"<xml/>"]))
     if kind == "empty":
